@@ -5,6 +5,7 @@ import (
 	"math"
 	"math/big"
 	"sort"
+	"strconv"
 	"strings"
 
 	"go.1password.io/spg"
@@ -18,6 +19,7 @@ type Sep struct {
 	Kind   string          `json:"kind"` // "none", "char", "SFNone", preset name, "sf"
 	Char   string          `json:"char,omitempty"`
 	Recipe *ref.CharRecipe `json:"recipe,omitempty"`
+	Ent    string          `json:"ent,omitempty"` // kind "customEnt": the entropy the function claims ("NaN", "+Inf", "-Inf" or a number)
 }
 
 // WLCase is one wordlist recipe.
@@ -77,6 +79,15 @@ func (w WLCase) build() (*spg.WLRecipe, error) {
 		// both fields set: the function decides, the character is ignored
 		r.SeparatorFunc = presetFuncs[strings.TrimSuffix(w.Sep.Kind, "+char")]
 		r.SeparatorChar = "-"
+	case "customEnt":
+		// a caller-written separator function that returns a fixed string and
+		// claims an unusual entropy
+		ent, err := strconv.ParseFloat(w.Sep.Ent, 64)
+		if err != nil {
+			return nil, err
+		}
+		sepStr := w.Sep.Char
+		r.SeparatorFunc = func() (string, spg.FloatE) { return sepStr, spg.FloatE(ent) }
 	case "customMixed":
 		// a caller-written separator function that returns nothing or a
 		// hyphen, one bit of entropy
@@ -117,6 +128,9 @@ func (w WLCase) sepModel() (vals []string, entropy float64, retry bool) {
 	case "SFDigits1+char":
 		m := presetModel["SFDigits1"]
 		cr = &m
+	case "customEnt":
+		e, _ := strconv.ParseFloat(w.Sep.Ent, 64)
+		return []string{w.Sep.Char}, e, false
 	case "customMixed":
 		if w.Sep.Char != "" {
 			return []string{w.Sep.Char, ""}, 1, false
@@ -354,6 +368,10 @@ var wlLists = [][]string{
 	{"ǆep", "ǅep", "b"},
 	// lower-case letters that have no title-case form: uncapitalisable
 	{"ßx", "ﬁsh", "ab", "cd"},
+	// words that differ only in white space at their edges or inside (a word
+	// file split on "\n" keeps "\r"): distinct words, each kept as supplied
+	{"alpha", "alpha ", " alpha", "be\r"},
+	{"a b", "a\tb", "ab", "\u3000x"},
 }
 
 var wlSchemes = []string{"none", "first", "all", "one", "random"}
